@@ -185,7 +185,8 @@ type_operators = [
 
 
 def _avg_operation(values):
-    values_list = list(v for v in values if isinstance(v, numbers.Number))
+    values_list = list(
+        v for v in values if isinstance(v, numbers.Number) and not isinstance(v, bool))
     if not values_list:
         return None
     return sum(values_list) / float(len(list(values_list)))
@@ -202,12 +203,13 @@ def _sum_operation(values):
     values_list = list()
     if decimal_support:
         for v in values:
-            if isinstance(v, numbers.Number):
+            if isinstance(v, numbers.Number) and not isinstance(v, bool):
                 values_list.append(v)
             elif isinstance(v, decimal128.Decimal128):
                 values_list.append(v.to_decimal())
     else:
-        values_list = list(v for v in values if isinstance(v, numbers.Number))
+        values_list = list(
+            v for v in values if isinstance(v, numbers.Number) and not isinstance(v, bool))
     sum_value = sum(values_list)
     return decimal128.Decimal128(sum_value) if isinstance(sum_value, decimal.Decimal) else sum_value
 
